@@ -28,13 +28,17 @@ CONSTANTS
   \* over-approximation of all designs that the conformance walk follows on the real code)
   LoadInvalidates,    \* _load_from_state_dict
   ApplyInvalidates,   \* _apply (dtype / device conversion)
-  TrainInvalidates,   \* train(True)
+  TrainInvalidates,   \* train(True) while using_cache is on
+  TrainInvalidatesOff,\* train(True) while using_cache is off (use_cache(False) does not empty the cache)
+  CachedWhenFrozen,   \* TRUE = the cached path is also taken in training mode while the parameters are frozen
   CopyDrops,          \* copy.deepcopy: TRUE = the copy starts with an empty cache, FALSE = the cached
                       \* tensors are deep-copied with the module (which autograd refuses for non-leaves)
   WithInplace         \* extend the alphabet by in-place parameter edits in eval mode
 
-VARIABLES training, usingCache, dt, cw, ci, cl, res
-vars == <<training, usingCache, dt, cw, ci, cl, res>>
+\* frozenP: the parameters were frozen with requires_grad_(False) (fine-tuning practice); it changes neither
+\* when the cache is consulted nor what invalidates it
+VARIABLES training, usingCache, dt, cw, ci, cl, frozenP, res
+vars == <<training, usingCache, dt, cw, ci, cl, frozenP, res>>
 
 DTypes == {"f32", "f64"}
 None == [filled |-> FALSE]
@@ -46,7 +50,7 @@ Fresh(alias, saves) ==
   Slot("cur", dt, IF alias THEN "leaf" ELSE IF saves THEN "live" ELSE "nosave")
 
 TypeOK ==
-  /\ training \in BOOLEAN /\ usingCache \in BOOLEAN /\ dt \in DTypes
+  /\ training \in BOOLEAN /\ usingCache \in BOOLEAN /\ dt \in DTypes /\ frozenP \in BOOLEAN
   /\ \A s \in {cw, ci, cl} :
         s = None \/ (s.filled /\ s.v \in {"cur", "stale"} /\ s.d \in DTypes
                      /\ s.g \in {"leaf", "live", "freed", "nosave", "poisoned"})
@@ -56,26 +60,28 @@ Init ==
   /\ usingCache \in BOOLEAN     \* constructor argument using_cache
   /\ dt = "f32"
   /\ cw = None /\ ci = None /\ cl = None
+  /\ frozenP = FALSE
   /\ res = [k |-> "init"]
 
 Invalidate == cw' = None /\ ci' = None /\ cl' = None
 
 Train ==
   /\ training' = TRUE
-  /\ \E inv \in TrainInvalidates : IF inv THEN Invalidate ELSE UNCHANGED <<cw, ci, cl>>
+  /\ \E inv \in (IF usingCache THEN TrainInvalidates ELSE TrainInvalidatesOff) : IF inv THEN Invalidate ELSE UNCHANGED <<cw, ci, cl>>
   /\ res' = [k |-> "train"]
-  /\ UNCHANGED <<usingCache, dt>>
+  /\ UNCHANGED <<usingCache, dt, frozenP>>
 
 \* eval() is train(False): no invalidation
 Eval ==
+  /\ ~frozenP
   /\ training' = FALSE
   /\ res' = [k |-> "eval"]
-  /\ UNCHANGED <<usingCache, dt, cw, ci, cl>>
+  /\ UNCHANGED <<usingCache, dt, cw, ci, cl, frozenP>>
 
 UseCache(b) ==
   /\ usingCache' = b
   /\ res' = [k |-> "use"]
-  /\ UNCHANGED <<training, dt, cw, ci, cl>>
+  /\ UNCHANGED <<training, dt, cw, ci, cl, frozenP>>
 
 \* outcome of a cached call through matrix slot m and log-det slot l
 Outcome(m, l, bw) ==
@@ -94,7 +100,7 @@ Outcomes == {"fresh", "stale", "raise_dtype", "raise_graph", "raise_inplace", "p
 \* o (the outcome relative to recomputing without the cache) and `cached` are parameters of
 \* the action so that they appear in the labels of the dumped state graph
 Call(dir, bw, o, cached) ==
-  /\ cached = (~training /\ usingCache)
+  /\ \E fz \in CachedWhenFrozen : cached = (usingCache /\ (~training \/ (fz /\ frozenP)))
   /\ IF cached
      THEN \* _check_forward_cache / _check_inverse_cache: fill what is missing (three-way if/elif)
           LET m0 == IF dir = "fwd" THEN cw ELSE ci
@@ -110,7 +116,7 @@ Call(dir, bw, o, cached) ==
           /\ o = "fresh"
           /\ UNCHANGED <<cw, ci, cl>>
   /\ res' = [k |-> "call", dir |-> dir, bw |-> bw, o |-> o, cached |-> cached]
-  /\ UNCHANGED <<training, usingCache, dt>>
+  /\ UNCHANGED <<training, usingCache, dt, frozenP>>
 
 Stale(s) == IF s.filled /\ s.g # "leaf" THEN [s EXCEPT !.v = "stale"] ELSE s
 \* an in-place write to a parameter invalidates live graphs that saved it
@@ -118,10 +124,10 @@ Poison(s) == IF s.filled /\ s.g = "live" THEN [s EXCEPT !.v = "stale", !.g = "po
 
 \* optimiser step: only in training mode (the property's alphabet)
 OptStep ==
-  /\ training
+  /\ training /\ ~frozenP
   /\ cw' = Poison(cw) /\ ci' = Poison(ci) /\ cl' = Poison(cl)
   /\ res' = [k |-> "opt"]
-  /\ UNCHANGED <<training, usingCache, dt>>
+  /\ UNCHANGED <<training, usingCache, dt, frozenP>>
 
 \* load_state_dict with different parameter values (copy_ into the parameters)
 Load ==
@@ -129,14 +135,14 @@ Load ==
        IF inv THEN Invalidate
        ELSE cw' = Poison(cw) /\ ci' = Poison(ci) /\ cl' = Poison(cl)
   /\ res' = [k |-> "load"]
-  /\ UNCHANGED <<training, usingCache, dt>>
+  /\ UNCHANGED <<training, usingCache, dt, frozenP>>
 
 \* outside the property's alphabet, only explored when WithInplace
 InplaceEdit ==
   /\ WithInplace /\ ~training
   /\ cw' = Poison(cw) /\ ci' = Poison(ci) /\ cl' = Poison(cl)
   /\ res' = [k |-> "inplace"]
-  /\ UNCHANGED <<training, usingCache, dt>>
+  /\ UNCHANGED <<training, usingCache, dt, frozenP>>
 
 \* module.double() / module.float(): nn.Module._apply converts parameters in place
 ToDtype(d) ==
@@ -146,7 +152,16 @@ ToDtype(d) ==
        ELSE /\ cw' = (IF cw.filled /\ cw.g = "leaf" THEN [cw EXCEPT !.d = d] ELSE cw)
             /\ UNCHANGED <<ci, cl>>
   /\ res' = [k |-> "to"]
-  /\ UNCHANGED <<training, usingCache>>
+  /\ UNCHANGED <<training, usingCache, frozenP>>
+
+\* requires_grad_(False) / requires_grad_(True) on every parameter, during training (a layer is frozen for some
+\* epochs and released again).  Freezing in evaluation mode is kept out of the alphabet: what a cache filled from
+\* frozen parameters does to later parameter gradients is the recorded finding about graph state in the cache.
+SetFrozen(b) ==
+  /\ training
+  /\ frozenP' = b
+  /\ res' = [k |-> "freeze"]
+  /\ UNCHANGED <<training, usingCache, dt, cw, ci, cl>>
 
 \* copy.deepcopy(transform); the session continues with the copy (with the original if copying raised).
 \* Tensors that hang on an autograd graph cannot be deep-copied.
@@ -156,11 +171,12 @@ Copy ==
        IF drop THEN res' = [k |-> "copy", o |-> "ok"] /\ Invalidate
        ELSE /\ res' = [k |-> "copy", o |-> (IF Attached(cw) \/ Attached(ci) \/ Attached(cl) THEN "raise_copy" ELSE "ok")]
             /\ UNCHANGED <<cw, ci, cl>>
-  /\ UNCHANGED <<training, usingCache, dt>>
+  /\ UNCHANGED <<training, usingCache, dt, frozenP>>
 
 Next ==
   \/ Train \/ Eval
   \/ Copy
+  \/ \E b \in BOOLEAN : SetFrozen(b)
   \/ \E b \in BOOLEAN : UseCache(b)
   \/ \E dir \in {"fwd", "inv"}, bw \in BOOLEAN, o \in Outcomes, c \in BOOLEAN : Call(dir, bw, o, c)
   \/ OptStep \/ Load \/ InplaceEdit
@@ -196,5 +212,5 @@ CacheIsCurrent == \A s \in {cw, ci, cl} : s.filled => (s.v = "cur" /\ s.d = dt)
 CallFillsBoth == [][(IsCall(res') /\ res'.cached) =>
                      (cl'.filled /\ IF res'.dir = "fwd" THEN cw'.filled ELSE ci'.filled)]_vars
 
-View == <<training, usingCache, dt, cw, ci, cl>>
+View == <<training, usingCache, dt, cw, ci, cl, frozenP>>
 =============================================================================
